@@ -218,6 +218,33 @@ def arith(i, a, b, delay):
     return (value, os.getpid(), t_start, time.monotonic())
 
 
+def plain_value(i):
+    """ what a function working by side effect, or a lookup without an answer, returns: for some calls nothing """
+    return None if i % 3 == 0 else (i if i % 3 == 1 else {"i": [i, None]})
+
+
+def plain(i, delay):
+    if delay:
+        time.sleep(delay)
+    return plain_value(i)
+
+
+def _call_with_default_workers(function, args, machine):
+    """ the number of workers is left to the default option of a machine with `machine` cores """
+    import multiprocessing
+    from unittest.mock import patch
+    from antismash.common.subprocessing import parallel_function
+    from antismash.config import build_config, get_config, update_config
+    kept = dict(vars(get_config()))
+    try:
+        with patch.object(multiprocessing, "cpu_count", return_value=machine):
+            build_config([], isolated=True, modules=[])
+        return parallel_function(function, args)
+    finally:
+        build_config([], isolated=True, modules=[])
+        update_config(kept)
+
+
 class C18Error(Exception):
     """ an exception class of the harness, with a two-argument constructor state """
 
@@ -754,6 +781,15 @@ def run_scenario(scenario, scratch):  # pylint: disable=too-many-return-statemen
     kind = scenario["kind"]
     if kind == "arith":
         info, results = _outcome(lambda: _call_parallel(arith, scenario["args"], scenario))
+    elif kind == "plain":
+        args = [[i, d] for i, d in enumerate(scenario["delays"])]
+        if scenario.get("default_of_machine"):
+            info, results = _outcome(lambda: _call_with_default_workers(plain, args, scenario["default_of_machine"]))
+        else:
+            info, results = _outcome(lambda: _call_parallel(plain, args, scenario))
+        if info["outcome"] == "returned":
+            info["plain"] = results if isinstance(results, list) else repr(results)[:200]
+        return info
     elif kind == "raise":
         args = [[i, scenario["raisers"], d] for i, d in enumerate(scenario["delays"])]
         info, results = _outcome(lambda: _call_parallel(maybe_raise, args, scenario))
